@@ -181,9 +181,9 @@ WF/Spellings.vos WF/Spellings.vok WF/Spellings.required_vos: WF/Spellings.v Spec
 Proofs/Congruence.vo Proofs/Congruence.glob Proofs/Congruence.v.beautified Proofs/Congruence.required_vo: Proofs/Congruence.v Model/Api.vo Spec/Eval.vo Spec/Spellings.vo Proofs/BytesFacts.vo Proofs/Sat.vo Proofs/MatchProof.vo
 Proofs/Congruence.vio: Proofs/Congruence.v Model/Api.vio Spec/Eval.vio Spec/Spellings.vio Proofs/BytesFacts.vio Proofs/Sat.vio Proofs/MatchProof.vio
 Proofs/Congruence.vos Proofs/Congruence.vok Proofs/Congruence.required_vos: Proofs/Congruence.v Model/Api.vos Spec/Eval.vos Spec/Spellings.vos Proofs/BytesFacts.vos Proofs/Sat.vos Proofs/MatchProof.vos
-Props/C08.vo Props/C08.glob Props/C08.v.beautified Props/C08.required_vo: Props/C08.v Props/Shipped.vo Spec/Spellings.vo Spec/Units.vo WF/Spellings.vo WF/Units.vo Proofs/Congruence.vo Proofs/BytesFacts.vo Proofs/MatchProof.vo Proofs/Split.vo Proofs/SameParse.vo Proofs/Laws.vo Proofs/ApiFacts.vo
-Props/C08.vio: Props/C08.v Props/Shipped.vio Spec/Spellings.vio Spec/Units.vio WF/Spellings.vio WF/Units.vio Proofs/Congruence.vio Proofs/BytesFacts.vio Proofs/MatchProof.vio Proofs/Split.vio Proofs/SameParse.vio Proofs/Laws.vio Proofs/ApiFacts.vio
-Props/C08.vos Props/C08.vok Props/C08.required_vos: Props/C08.v Props/Shipped.vos Spec/Spellings.vos Spec/Units.vos WF/Spellings.vos WF/Units.vos Proofs/Congruence.vos Proofs/BytesFacts.vos Proofs/MatchProof.vos Proofs/Split.vos Proofs/SameParse.vos Proofs/Laws.vos Proofs/ApiFacts.vos
+Props/C08.vo Props/C08.glob Props/C08.v.beautified Props/C08.required_vo: Props/C08.v Props/Shipped.vo Spec/Spellings.vo Spec/Units.vo WF/Spellings.vo WF/Units.vo Proofs/Congruence.vo Proofs/BytesFacts.vo Proofs/MatchProof.vo Proofs/Split.vo Proofs/SameParse.vo Proofs/Laws.vo Proofs/ApiFacts.vo Proofs/OnlyPairs.vo Proofs/ParseRel.vo
+Props/C08.vio: Props/C08.v Props/Shipped.vio Spec/Spellings.vio Spec/Units.vio WF/Spellings.vio WF/Units.vio Proofs/Congruence.vio Proofs/BytesFacts.vio Proofs/MatchProof.vio Proofs/Split.vio Proofs/SameParse.vio Proofs/Laws.vio Proofs/ApiFacts.vio Proofs/OnlyPairs.vio Proofs/ParseRel.vio
+Props/C08.vos Props/C08.vok Props/C08.required_vos: Props/C08.v Props/Shipped.vos Spec/Spellings.vos Spec/Units.vos WF/Spellings.vos WF/Units.vos Proofs/Congruence.vos Proofs/BytesFacts.vos Proofs/MatchProof.vos Proofs/Split.vos Proofs/SameParse.vos Proofs/Laws.vos Proofs/ApiFacts.vos Proofs/OnlyPairs.vos Proofs/ParseRel.vos
 Props/C09.vo Props/C09.glob Props/C09.v.beautified Props/C09.required_vo: Props/C09.v Props/Shipped.vo Spec/Spellings.vo Spec/Units.vo WF/Spellings.vo WF/Units.vo Proofs/Congruence.vo Proofs/NodeInv.vo Proofs/Split.vo Proofs/SameParse.vo Proofs/CaseFold.vo Proofs/Laws.vo Proofs/ApiFacts.vo
 Props/C09.vio: Props/C09.v Props/Shipped.vio Spec/Spellings.vio Spec/Units.vio WF/Spellings.vio WF/Units.vio Proofs/Congruence.vio Proofs/NodeInv.vio Proofs/Split.vio Proofs/SameParse.vio Proofs/CaseFold.vio Proofs/Laws.vio Proofs/ApiFacts.vio
 Props/C09.vos Props/C09.vok Props/C09.required_vos: Props/C09.v Props/Shipped.vos Spec/Spellings.vos Spec/Units.vos WF/Spellings.vos WF/Units.vos Proofs/Congruence.vos Proofs/NodeInv.vos Proofs/Split.vos Proofs/SameParse.vos Proofs/CaseFold.vos Proofs/Laws.vos Proofs/ApiFacts.vos
@@ -211,3 +211,9 @@ Proofs/SameParse.vos Proofs/SameParse.vok Proofs/SameParse.required_vos: Proofs/
 Proofs/CaseFold.vo Proofs/CaseFold.glob Proofs/CaseFold.v.beautified Proofs/CaseFold.required_vo: Proofs/CaseFold.v Model/Api.vo Spec/Lex.vo Spec/WF.vo Spec/Units.vo Spec/Spellings.vo Proofs/BytesFacts.vo Proofs/ScanRef.vo Proofs/Split.vo Proofs/Lexo.vo Proofs/Respell.vo Proofs/Replace.vo Proofs/Congruence.vo Proofs/NodeInv.vo Proofs/WFSound.vo Proofs/SameParse.vo
 Proofs/CaseFold.vio: Proofs/CaseFold.v Model/Api.vio Spec/Lex.vio Spec/WF.vio Spec/Units.vio Spec/Spellings.vio Proofs/BytesFacts.vio Proofs/ScanRef.vio Proofs/Split.vio Proofs/Lexo.vio Proofs/Respell.vio Proofs/Replace.vio Proofs/Congruence.vio Proofs/NodeInv.vio Proofs/WFSound.vio Proofs/SameParse.vio
 Proofs/CaseFold.vos Proofs/CaseFold.vok Proofs/CaseFold.required_vos: Proofs/CaseFold.v Model/Api.vos Spec/Lex.vos Spec/WF.vos Spec/Units.vos Spec/Spellings.vos Proofs/BytesFacts.vos Proofs/ScanRef.vos Proofs/Split.vos Proofs/Lexo.vos Proofs/Respell.vos Proofs/Replace.vos Proofs/Congruence.vos Proofs/NodeInv.vos Proofs/WFSound.vos Proofs/SameParse.vos
+Proofs/ParseRel.vo Proofs/ParseRel.glob Proofs/ParseRel.v.beautified Proofs/ParseRel.required_vo: Proofs/ParseRel.v Model/Parse.vo Model/Api.vo Spec/Eval.vo Proofs/BytesFacts.vo Proofs/ParseGrammar.vo Proofs/Sat.vo
+Proofs/ParseRel.vio: Proofs/ParseRel.v Model/Parse.vio Model/Api.vio Spec/Eval.vio Proofs/BytesFacts.vio Proofs/ParseGrammar.vio Proofs/Sat.vio
+Proofs/ParseRel.vos Proofs/ParseRel.vok Proofs/ParseRel.required_vos: Proofs/ParseRel.v Model/Parse.vos Model/Api.vos Spec/Eval.vos Proofs/BytesFacts.vos Proofs/ParseGrammar.vos Proofs/Sat.vos
+Proofs/OnlyPairs.vo Proofs/OnlyPairs.glob Proofs/OnlyPairs.v.beautified Proofs/OnlyPairs.required_vo: Proofs/OnlyPairs.v Model/Api.vo Spec/Lex.vo Spec/Eval.vo Spec/WF.vo Spec/MatchSpec.vo Spec/Units.vo Spec/Spellings.vo Proofs/BytesFacts.vo Proofs/ScanRef.vo Proofs/NodeInv.vo Proofs/Sat.vo Proofs/ApiFacts.vo Proofs/Laws.vo Proofs/MatchProof.vo Proofs/Split.vo Proofs/Lexo.vo Proofs/Respell.vo Proofs/Replace.vo Proofs/SameParse.vo Proofs/ParseRel.vo Proofs/ParseGrammar.vo Proofs/CaseFold.vo Proofs/WFSound.vo
+Proofs/OnlyPairs.vio: Proofs/OnlyPairs.v Model/Api.vio Spec/Lex.vio Spec/Eval.vio Spec/WF.vio Spec/MatchSpec.vio Spec/Units.vio Spec/Spellings.vio Proofs/BytesFacts.vio Proofs/ScanRef.vio Proofs/NodeInv.vio Proofs/Sat.vio Proofs/ApiFacts.vio Proofs/Laws.vio Proofs/MatchProof.vio Proofs/Split.vio Proofs/Lexo.vio Proofs/Respell.vio Proofs/Replace.vio Proofs/SameParse.vio Proofs/ParseRel.vio Proofs/ParseGrammar.vio Proofs/CaseFold.vio Proofs/WFSound.vio
+Proofs/OnlyPairs.vos Proofs/OnlyPairs.vok Proofs/OnlyPairs.required_vos: Proofs/OnlyPairs.v Model/Api.vos Spec/Lex.vos Spec/Eval.vos Spec/WF.vos Spec/MatchSpec.vos Spec/Units.vos Spec/Spellings.vos Proofs/BytesFacts.vos Proofs/ScanRef.vos Proofs/NodeInv.vos Proofs/Sat.vos Proofs/ApiFacts.vos Proofs/Laws.vos Proofs/MatchProof.vos Proofs/Split.vos Proofs/Lexo.vos Proofs/Respell.vos Proofs/Replace.vos Proofs/SameParse.vos Proofs/ParseRel.vos Proofs/ParseGrammar.vos Proofs/CaseFold.vos Proofs/WFSound.vos
